@@ -74,7 +74,11 @@ func (f *File) DecodeGlobalHeap(addr uint64) (*GCOL, error) {
 		ob.Index = oc.u16("id")
 		ob.RefCount = oc.u16("count")
 		oc.skip(4, "reserved")
-		ob.Size = oc.length("object-size")
+		sizeKind := "object-size"
+		if ob.Index == 0 {
+			sizeKind = "free-size" // the free-space object: a field class of its own (C07)
+		}
+		ob.Size = oc.length(sizeKind)
 		if ob.Index == 0 {
 			// free-space object: size includes the object header and must reach the end
 			sawFree = true
